@@ -50,6 +50,8 @@ def parse_log(path):
                 cur["events"].append(("S",))
             elif f[0] == "F":
                 cur["events"].append(("F", f[1], f[2]))
+            elif f[0] == "U":
+                cur["events"].append(("U", f[1]))      # a write-like call the commit model does not know
     return commits
 
 
@@ -65,6 +67,9 @@ def check_shape(commit, steps, pagesize):
         elif s == "sync":
             kinds.append("S")
     ev = commit["events"]
+    for e in ev:
+        if e[0] == "U":
+            return "the commit issued %s on the database file: not an operation of the commit model (write / fsync)" % e[1]
     i = 0
     last_off = -1
     for k in kinds:
@@ -110,8 +115,9 @@ def crash_images(commit, pre, pagesize, r, quick):
     # --- process kill: every prefix of the writes, the last possibly short (512-byte granularity)
     for j in range(len(writes) + 1):
         img = apply_writes(pre, [(o, d) for _, o, d in writes[:j]], length)
-        after = j == len(writes) and commit["outcome"] == "ok" and ev and ev[-1][0] == "S"
-        yield ("kill-%d" % j, "kill", False, img)
+        # a process kill after commit returned: everything it wrote is in the page cache
+        after = j == len(writes) and commit["outcome"] == "ok" and bool(ev) and ev[-1][0] == "S"
+        yield ("kill-%d" % j, "kill", after, img)
         if j < len(writes):
             _, o, d = writes[j]
             if len(d) > 512:
